@@ -45,7 +45,13 @@ func newPM(options plugintypes.OperatorOptions) (plugintypes.Operator, error) {
 	data := options.Arguments
 
 	data = strings.ToLower(data)
-	dict := strings.Split(data, " ")
+	// consecutive spaces do not denote an empty phrase (which would match every input)
+	dict := make([]string, 0, 8)
+	for _, w := range strings.Split(data, " ") {
+		if w != "" {
+			dict = append(dict, w)
+		}
+	}
 	builder := ahocorasick.NewAhoCorasickBuilder(ahocorasick.Opts{
 		AsciiCaseInsensitive: true,
 		MatchOnlyWholeWords:  false,
